@@ -4,7 +4,7 @@ package main
 
 // The tie of MiniJS STATEMENTS (coq/Model/MiniJS.v: js_exec) to V8: random statements of the subset of
 // C04_gen_correct_partial_stmt (raw text, print with directives, let in both forms, if / elseif / else, switch with case
-// groups and default, foreach / ifempty and for over range() with index / isFirst / isLast of the enclosing loops, nested blocks) are given to the model (op minijs_stmt), which returns the JavaScript
+// groups and default, foreach / ifempty and for over range() with index / isFirst / isLast of the enclosing loops, css, nested blocks) are given to the model (op minijs_stmt), which returns the JavaScript
 // text the generator model writes for them (sprint (sgen s)), the text the subset semantics writes (sout)
 // and the variables after MiniJS executed the statement (js_exec) from an empty buffer; node runs the same
 // text inside a function that declares the same variables (soyutils.js loaded), and must end with the same
@@ -76,6 +76,13 @@ func (g *cexprGen) stmt(d int) string {
 			return "(sforrange " + sx(v) + " (" + rargs + ") " + body + " " + hasie + " " + ie + ")"
 		}
 		return "(sfor " + sx(v) + " " + lst + " " + body + " " + hasie + " " + ie + ")"
+	case k < 2 && g.r.Chance(25):
+		// {css sfx} / {css e, sfx}
+		sfx := sx(g.r.Pick([]string{"foo", "bar-baz", "a_b", "it's"}))
+		if g.r.Bool() {
+			return "(scss none " + sfx + ")"
+		}
+		return "(scss " + g.expr(g.r.Intn(4), 1) + " " + sfx + ")"
 	case k < 2:
 		return "(sraw " + sx(g.r.Pick([]string{"A", "b c", "it's", "<p>", "x\ny", "\"q\"", "</script>", "\\", ""})) + ")"
 	case k < 4:
@@ -253,7 +260,7 @@ func c04StmtTie(e *env, n int) {
 				cls = "outside-subset"
 			}
 			e.res.Count("stmt:"+it.req, it.sout != "none", "minijs-stmt:"+cls+":"+it.cls)
-			for _, f := range []string{"var ", " = '';", "} else if (", "} else {", "switch (", "default:", "case ", "for (var ", ".length;", " > 0) {", " == 0)", " - 1)", "Math.ceil("} {
+			for _, f := range []string{"var ", " = '';", "} else if (", "} else {", "switch (", "default:", "case ", "for (var ", ".length;", " > 0) {", " == 0)", " - 1)", "Math.ceil(", " + '-';"} {
 				if strings.Contains(it.text, f) {
 					e.res.Histogram["minijs-stmt:has:"+strings.TrimSpace(f)]++
 				}
